@@ -42,7 +42,7 @@ def s_array(obj, dtype=None, *a, **kw):
         if isinstance(obj, (SNum, SBool)):
             return obj
         return _to_obj_array(obj)
-    return np.array(obj, dtype, *a, **kw)
+    return np.array(obj, _UNSHIM.get(dtype, dtype), *a, **kw)
 
 
 def _to_obj_array(obj):
@@ -85,7 +85,7 @@ def s_asarray(obj, dtype=None, *a, **kw):
 def _sym_alloc(fill):
     def f(shape, dtype=None, *a, **kw):
         if sym._CTX is None:
-            return getattr(np, fill)(shape, dtype, *a, **kw)
+            return getattr(np, fill)(shape, _UNSHIM.get(dtype, dtype), *a, **kw)
         out = np.empty(shape, dtype=object)
         out[...] = 0 if fill == "zeros" else (1 if fill == "ones" else 0)
         if _UNSHIM.get(dtype, dtype) in (bool, np.bool_):
@@ -402,6 +402,40 @@ def s_block_diag(*arrs):
     return scipy.linalg.block_diag(*arrs)
 
 
+CHOL_REGISTRY = {}
+
+
+def s_cholesky(a, *x, **kw):
+    """numpy.linalg.cholesky by contract: the lower-triangular factor L with positive diagonal and L L^T = A (unique for
+    positive-definite A).  If the harness built A from a known factor (registered), that factor is returned; otherwise a
+    fresh lower-triangular L with the defining equations as hypotheses."""
+    if not has_sym(a):
+        return np.linalg.cholesky(a, *x, **kw)
+    a = _obj(a)
+    c = ctx()
+    reg = c.__dict__.setdefault("_chol", [])
+    for (A0, L0) in reg:
+        if A0.shape == a.shape and all(sym.term(p).eq(sym.term(q)) for p, q in zip(A0.flat, a.flat)):
+            return L0.copy()
+    n = a.shape[0]
+    L = np.full((n, n), 0, dtype=object)
+    k = len(reg)
+    for i in range(n):
+        for j in range(i + 1):
+            L[i, j] = SNum(z3.Real(f"chol{k}[{i},{j}]"))
+        c.add_axiom(sym.term(L[i, i] > 0))
+    P = np.dot(L, L.T)
+    for i in range(n):
+        for j in range(i + 1):
+            c.add_axiom(sym.term(P[i, j] == a[i, j]))
+    reg.append((a, L))
+    return L.copy()
+
+
+def register_cholesky(A, L):
+    ctx().__dict__.setdefault("_chol", []).append((_obj(A), _obj(L)))
+
+
 def s_delete(arr, idx, axis=None):
     if isinstance(arr, np.ndarray) and arr.dtype == object:
         return np.array([e for k, e in enumerate(arr.ravel()) if k not in set(np.atleast_1d(idx).tolist())], dtype=object) \
@@ -574,7 +608,7 @@ for _r, _s in [
     (scipy.linalg.inv, s_inv), (np.linalg.inv, s_inv), (np.outer, s_outer), (np.trace, s_trace),
     (np.diagflat, s_diagflat), (np.diag, s_diag), (scipy.linalg.block_diag, s_block_diag),
     (__import__("scipy.optimize", fromlist=["x"]).linear_sum_assignment, s_linear_sum_assignment),
-    (np.delete, s_delete), (np.fill_diagonal, s_fill_diagonal),
+    (np.delete, s_delete), (np.fill_diagonal, s_fill_diagonal), (np.linalg.cholesky, s_cholesky),
     (math.floor, m_floor), (math.sin, _m1("sin", sym.fn_sin)), (math.cos, _m1("cos", sym.fn_cos)),
     (math.sqrt, _m1("sqrt", sym.fn_sqrt)), (math.asin, _m1("asin", sym.fn_arcsin)), (math.acos, _m1("acos", sym.fn_arccos)),
     (math.atan, _m1("atan", sym.fn_arctan)), (math.fabs, _m1("fabs", abs)), (math.exp, _m1("exp", sym.fn_exp)),
